@@ -230,6 +230,28 @@ func runCheck(prog *Program, prop, tier, verif, only string, loadSecs float64, t
 		results[i] = solveOne(r.VC, r.Obl, filepath.Join(work, "smt"), 3*timeout, false)
 	}
 
+	// calls of contract-less module functions known on the verified baseline: a function that calls one that is
+	// not listed (say, a helper extracted by a refactoring) is havocked at that call, so a failed obligation
+	// there is "needs a contract", not a violation
+	baseline := loadCallBaseline(filepath.Join(verif, "nocontract_baseline.txt"))
+	newCallee := map[string]string{} // function name -> new contract-less callee
+	for _, rp := range reports {
+		for _, cal := range rp.NoContract {
+			if !baseline[rp.Key+" => "+cal] {
+				newCallee[rp.Name] = cal
+			}
+		}
+	}
+	if os.Getenv("GOVC_WRITE_BASELINE") != "" {
+		f, _ := os.OpenFile(os.Getenv("GOVC_WRITE_BASELINE"), os.O_APPEND|os.O_CREATE|os.O_WRONLY, 0o644)
+		for _, rp := range reports {
+			for _, cal := range rp.NoContract {
+				fmt.Fprintf(f, "%s => %s\n", rp.Key, cal)
+			}
+		}
+		f.Close()
+	}
+	undecidedNew := map[string]bool{}
 	var records []oblRecord
 	bySolver := map[string]int{}
 	solverSecs := 0.0
@@ -287,6 +309,15 @@ func runCheck(prog *Program, prop, tier, verif, only string, loadSecs float64, t
 			bySolver[r.Solver]++
 			if len(samples) < 4 {
 				samples = append(samples, map[string]any{"obligation": o.Name, "clause": o.Desc, "result": "unsat", "solver": r.Solver, "seconds": round3(r.Seconds), "smt_bytes": sz})
+			}
+			continue
+		}
+		if cal, ok := newCallee[o.Func]; ok {
+			nObl--
+			if !undecidedNew[o.Func] {
+				undecidedNew[o.Func] = true
+				undecided++
+				fmt.Printf("UNDECIDED property=%s func=%s reason=calls %s, which has no contract and is not in the verified baseline (all state is havocked there); obligation %s and others not decided\n", prop, o.Func, cal, o.Name)
 			}
 			continue
 		}
@@ -396,6 +427,20 @@ func runCheck(prog *Program, prop, tier, verif, only string, loadSecs float64, t
 		return 1
 	}
 	return 0
+}
+
+func loadCallBaseline(path string) map[string]bool {
+	out := map[string]bool{}
+	data, err := os.ReadFile(path)
+	if err != nil {
+		return out
+	}
+	for _, l := range strings.Split(string(data), "\n") {
+		if l = strings.TrimSpace(l); l != "" && !strings.HasPrefix(l, "#") {
+			out[l] = true
+		}
+	}
+	return out
 }
 
 func round3(f float64) float64 { return float64(int(f*1000+0.5)) / 1000 }
